@@ -221,7 +221,8 @@ fn catalogue_values() -> &'static Vec<(&'static str, simplesl::variable::Variabl
             "(1, \"s\")", "(1, 2, 3)", "(2.5, 1)", "mut int|string 1", "mut float|bool true", "(x: int) -> int { return x; }", "(x: string) -> int { return 1; }",
         ];
         let more = crate::genr::matrix::Operand { ty: "any", values: &MORE };
-        for o in crate::genr::matrix::CATALOGUE.iter().chain([&more]) {
+        // (the look-alike values first: the selection below takes the first few values of every kind)
+        for o in [&more].into_iter().chain(crate::genr::matrix::CATALOGUE.iter()) {
             for text in o.values {
                 if out.iter().any(|(t, ..)| t == text) {
                     continue;
